@@ -41,6 +41,7 @@ static size_t pick_off(size_t avail, size_t histSize, size_t outSoFar)
     return o;
 }
 
+static int g_fill = 0;   /* 1: keep adding sequences until the target content size is reached */
 /* hist: bytes logically in front of the block (may be NULL).  valid=1: respects the end-of-block rules */
 static genblk_t gen_block(const u8* hist, size_t histSize, size_t targetContent, int valid)
 {
@@ -48,7 +49,7 @@ static genblk_t gen_block(const u8* hist, size_t histSize, size_t targetContent,
     u8* all = xalloc(histSize + capC);      /* hist ++ content, to resolve matches */
     g.blk = xalloc(capB);
     if (histSize) memcpy(all, hist, histSize);
-    while (nseq-- > 0 && cp < targetContent) {
+    while ((g_fill || nseq-- > 0) && cp < targetContent) {
         size_t ll = pick_lits(), ml = pick_ml(), off, i; u8* tok;
         if (ml > 4100 && targetContent < 70000) ml = 4 + rndn(300);
         if (cp + ll + ml + 12 > capC - 16) break;
@@ -155,10 +156,14 @@ static void chain_case(int thorough)
     int nb = 2 + (int)rndn(thorough ? 38 : 24), k, nseg = 0; genblk_t g[MAXB]; int segOf[MAXB]; size_t segSize[MAXB]; u8* segBuf[MAXB]; size_t segFill[MAXB];
     u8* hist = xalloc(2 * 70000 + 16); size_t prevLen = 0, curLen = 0;   /* hist = prev segment tail (<= 64 KB) ++ current segment (kept <= 64 KB tail) */
     u8* prev = xalloc(70000); u8* cur = xalloc(70000 + 400000); size_t curTotal = 0;
-    LZ4_streamDecode_t sd; rec_t r; int sawEmptySwitch = 0;
+    LZ4_streamDecode_t sd; rec_t r; int sawEmptySwitch = 0; int pinned = rndp(16);
     memset(segSize, 0, sizeof segSize);
+    if (pinned && nb < 4) nb = 4;
     for (k = 0; k < nb; k++) {
-        int sw = (k > 0) && rndp(25); int empty = rndp(12); size_t hl;
+        int sw = (k > 0) && rndp(25); int empty = rndp(12); size_t hl; size_t forced = 0;
+        /* pinned geometry (1 chain in 6): a first segment of more than 64 KB, then a segment whose SECOND block carries its size across 64 KB - 1
+         * while the decoder still holds the first segment as external dictionary: far matches of that block reach the old segment */
+        if (pinned) { empty = 0; sw = (k == 1); if (k == 0) forced = 66000 + rndn(3000); else if (k == 1) forced = 30000 + rndn(34000); else if (k == 2) forced = 65535 - g[1].contentSize + 500 + rndn(3000); else if (k > 3) pinned = 0; }
         if (sw) {   /* new segment: the current one becomes "previous" */
             size_t keep = curLen < 65536 ? curLen : 65536; memcpy(prev, cur + (curLen - keep), keep); prevLen = keep; curLen = 0; nseg++;
             if (empty) sawEmptySwitch = 1;
@@ -166,6 +171,7 @@ static void chain_case(int thorough)
         segOf[k] = nseg;
         hl = 0; memcpy(hist, prev, prevLen); hl = prevLen; { size_t keep = curLen < 65536 ? curLen : 65536; memcpy(hist + hl, cur + (curLen - keep), keep); hl += keep; }
         if (empty) { g[k].blk = xalloc(1); g[k].blk[0] = 0; g[k].blkSize = 1; g[k].content = xalloc(0); g[k].contentSize = 0; g[k].valid = 1; n_chain_empty++; }
+        else if (forced) { g_fill = 1; g[k] = gen_block(hl ? hist : NULL, hl, forced, 1); g_fill = 0; }
         else g[k] = gen_block(hl ? hist : NULL, hl, rndp(70) ? rndn(600) : rndn(thorough ? 60000 : 20000), 1);
         if (curLen + g[k].contentSize > 70000 + 400000 - 16) { /* keep the scratch bounded: force a switch next time */ }
         memcpy(cur + curLen, g[k].content, g[k].contentSize); curLen += g[k].contentSize; curTotal += g[k].contentSize;
